@@ -356,7 +356,17 @@ func (r *resolver) Resolve(ctx context.Context, vk resolve.VersionKey) (*resolve
 				if r.protected(parent.parent, node.pkg, alias) {
 					break
 				}
-				parent.protected[node.pkg] = true
+				// The slot being left must not be filled later by something
+				// that would shadow this installation: it is named by the
+				// alias when there is one.
+				if alias != "" {
+					if parent.aliasProtected == nil {
+						parent.aliasProtected = make(map[string]bool)
+					}
+					parent.aliasProtected[alias] = true
+				} else {
+					parent.protected[node.pkg] = true
+				}
 				parent = parent.parent
 			}
 			// If the parent and the installed version are from the same
